@@ -18,6 +18,10 @@ def base_models(tmpdir):
     out.append((half, "partly-done"))
     out.append((F.waiting_component_spec(), "waiting-component"))  # a component that is WORKING, then READY (its next task waits for a worker), then WORKING again
     out.append((F.idle_component_spec(), "idle-component"))
+    emp = F.with_teams({"tasks": [{"name": "T0", "work": 2.0}, {"name": "T1", "work": 1.0}], "links": [[0, 1, "FS"]]}, "POOL2")
+    emp["teams"] = emp["teams"] + [{"name": "TMX", "targets": [], "workers": []}]
+    emp["workplaces"] = [{"name": "WPX", "cap": 1.0, "targets": [], "facilities": []}]
+    out.append((emp, "empty-team-and-workplace"))
     # a parent project with a sub-project task (configured from a saved, successfully simulated project)
     sub = F.with_teams({"tasks": [{"name": "T0", "work": 2.0}, {"name": "T1", "work": 1.0}], "links": [[0, 1, "FS"]]}, "POOL1")
     m = S.build(sub)
